@@ -132,8 +132,46 @@ theorem C02_partial (tf : Option Int) (htf : ∀ t, tf = some t → 0 < t) (fill
       exact closed_candles_final_leaf_fill t (htf t rfl) _ (hk.isLeaf round) K init chunks₁ chunks₂ hraw
         snap₁ snap₂ h₁ h₂
 
+/-- **C02, partial: all covered TREES** (`CoveredTree`: leaf classes and the composite kinds whose
+refinement is proved), any timeframe, gap filling off or on: the closed candles of an earlier
+snapshot – with the node's readings and its helper series – are a prefix of every later one. -/
+theorem C02_trees (tf : Option Int) (htf : ∀ t, tf = some t → 0 < t) (fill : Bool) (k : Kind F)
+    (name : String) (round : Nat) (hk : CoveredTree name k) (init : List (Candle F))
+    (chunks₁ chunks₂ : List (List (Candle F)))
+    (hraw : RawTf (init ++ (chunks₁ ++ chunks₂).flatten)) (snap₁ snap₂ : List (Candle F))
+    (h₁ : candlesOf (runIndicator (mkTop k name round) { tf := tf, fill := fill && tf.isSome } init chunks₁)
+      = .ok snap₁)
+    (h₂ : candlesOf (runIndicator (mkTop k name round) { tf := tf, fill := fill && tf.isSome } init
+      (chunks₁ ++ chunks₂)) = .ok snap₂) :
+    closed tf snap₁ <+: snap₂ := by
+  obtain ⟨T, _⟩ := hk.spec round
+  have hraw' : RawTf ((init ++ chunks₁.flatten) ++ chunks₂.flatten) := by
+    simpa [List.flatten_append, List.append_assoc] using hraw
+  have hcfg := mgrSpecOf_cfg (F := F) tf htf fill
+  rw [← hcfg] at h₁ h₂
+  have hok := mgrSpecOf_ok tf htf fill _ hraw'
+  have r₁ := T.live_refines (mgrSpecOf F tf htf fill) init chunks₁
+    (mgrSpecOf_ok tf htf fill _ hraw'.append_left) snap₁ h₁
+  have r₂ := T.live_refines (mgrSpecOf F tf htf fill) init (chunks₁ ++ chunks₂)
+    (mgrSpecOf_ok tf htf fill _ hraw) snap₂ h₂
+  rw [List.flatten_append, ← List.append_assoc] at r₂
+  cases tf with
+  | none => exact T.base_prefix _ _ snap₁ snap₂ hraw'.plain r₁ r₂
+  | some t => exact T.closed_prefix (mgrSpecOf F (some t) htf fill) _ _ snap₁ snap₂ hok r₁ r₂
+
+/-- **Truncation of a batch run, trees** (base timeframe). -/
+theorem batch_truncation_trees (k : Kind F) (name : String) (round : Nat) (hk : CoveredTree name k)
+    (stream out : List (Candle F)) (hp : RawInput stream)
+    (h : candlesOf (runBatch (mkTop k name round) {} stream) = .ok out) (n : Nat) :
+    candlesOf (runBatch (mkTop k name round) {} (stream.take n)) = .ok (out.take n) := by
+  obtain ⟨T, _⟩ := hk.spec round
+  have hpt : RawInput (stream.take n) := fun c hc => hp c (List.mem_of_mem_take hc)
+  have h1 := (T.batch_iff (MgrSpec.base F) stream hp out).1 h
+  exact (T.batch_iff (MgrSpec.base F) _ hpt _).2 (Gen.rowMajor_take T.law stream out hp h1 n)
+
 /-- **C02 at full strength** (every shipped kind, timeframes, gap filling).  NOT proved yet; see
-`C01_FULL` for what is missing (trees with helpers, indicator-on-indicator inputs). -/
+`C01_FULL` for what is missing (the composite kinds not in `CoveredTree`, indicator-on-indicator
+inputs). -/
 def C02_FULL (F : Type) [PyF F] : Prop :=
   ∀ (k : Kind F) (name : String) (round : Nat) (tf : Option Int) (fill : Bool)
     (init : List (Candle F)) (chunks₁ chunks₂ : List (List (Candle F))) (snap₁ snap₂ : List (Candle F)),
@@ -157,5 +195,10 @@ and is re-opened by the second; the hypotheses of `closed_candles_final_leaf_tf`
 example : smaColumn (candlesOf (runIndicator demoSMA (cfgTf 120) [] [demo.take 1])) = some [none] := by
   decide +kernel
 example : RawTf ([] ++ ([demo.take 1] ++ [demo.drop 1]).flatten) := ⟨by decide, by decide, by decide, by decide⟩
+
+/-- a composite tree: the history of `C02_trees` runs for STDEV over the demo -/
+example : CoveredTree (F := Int) "STDEV_2" (.stdev 2 "close") := .stdev 2 "close" (by decide) (by decide)
+example : (candlesOf (runIndicator (mkTop (.stdev 2 "close") "STDEV_2" 4) {} [] ([demo.take 1] ++ [demo.drop 1]))).toOption.isSome
+    = true := by decide +kernel
 
 end Hex.C02
